@@ -1,9 +1,10 @@
 //! C20: string views, numeric comparators, iterators, join/split.
 //! M+S cells (Coq mechanism model + theorems, cases evaluated in Coq): decimal_strcmp, realnum_strcmp, join (all entry
-//! points), split (LineSplitter both strategies, FastStr::split), words, LineProcessor (default configuration),
-//! ASCII case conversion, SortedVecLexIterator.
-//! S-only cells (direct oracle against std): FastStr, StreamingLexIterator, SortableStrVec, ZoSortedStrVec, unicode,
-//! LineProcessor configurations.
+//! points), split (LineSplitter both strategies, FastStr::split), words (+ the word-boundary helpers), LineProcessor
+//! (default configuration and every skip_empty / trim / preserve-endings configuration), ASCII case conversion,
+//! SortedVecLexIterator, and since the extension (c20_x.rs): FastStr, unicode, StreamingLexIterator, ZoSortedStrVec,
+//! SortableStrVec_core (storage, binary_search, the comparison kernel of the release-mode sort).
+//! S-only cell (direct oracle against std): SortableStrVec (its sorting algorithms).
 #[path = "c20_more.rs"]
 mod more;
 #[path = "c20_wide.rs"]
@@ -514,7 +515,7 @@ fn run_one(cx: &mut Ctx, c: &Value) {
 
 pub fn run(args: &Args) {
     let mut cx = Ctx {
-        sum: Summary::new("C20", "numeric comparators: all pairs of strings over {+,-,0,1,9,.,a} up to length 3 (quick) / 4 (thorough) against an exact integer-arithmetic value oracle, antisymmetry on all pairs, transitivity on all triples up to length 2, plus generated long numerals (equal values written differently); FastStr: generated pairs plus the deep oracle on every length 0..=130 (24 alignments, every constructor, one byte changed at every position, every cut point, find of every substring start); join/split/words/lines/case/lex-iterator histories: generated lists and texts (empties, duplicates, bytes >= 0x80, all line-ending mixes) against std, a sample evaluated in Coq against the models; StreamingLexIterator/SortableStrVec (up to 1300 strings, 2^20-byte strings)/ZoSortedStrVec/unicode/LineProcessor configurations against std; breadth families (c20_wide.rs, oracle only): pre-parsed comparators on every pair of valid bodies up to length 3 x sign flags, numerals of 17..2^20 digits against the padded digit-row order, FastStr conversions / collections / strings of 131..2^20+1 bytes (one and two bytes changed around the powers of two, planted bytes, views), join over arbitrary bytes and item types with one JoinBuilder used repeatedly and lists of 2^16 / 2^20 parts, one LineSplitter over many lines, LineProcessor presets x buffer sizes 0..256 KiB x maximum line length x chunked readers with operation histories on one processor (early stop, failing handler, batches, fields, counting) and line_utils, non-UTF-8 input, StreamingLexIterator histories with refused operations and lines around the reader buffer, sorted lists of 2^16 strings, SortableStrVec histories (14 operations, clone, reserve / shrink_to_fit, SORTABLE_CACHE_BLOCK 0..4, SORTABLE_PREFETCH) and vectors around 512 / 10000 / 2^16 strings, ZoSortedStrVec layouts above 2^16 and 2^20 bits, unicode cursor histories and long texts; corpus of past witnesses first; non-trivial = at least one operand of length >= 2 (or list of >= 2)"),
+        sum: Summary::new("C20", "numeric comparators: all pairs of strings over {+,-,0,1,9,.,a} up to length 3 (quick) / 4 (thorough) against an exact integer-arithmetic value oracle, antisymmetry on all pairs, transitivity on all triples up to length 2, plus generated long numerals (equal values written differently); FastStr: generated pairs plus the deep oracle on every length 0..=130 (24 alignments, every constructor, one byte changed at every position, every cut point, find of every substring start); join/split/words/lines/case/lex-iterator histories: generated lists and texts (empties, duplicates, bytes >= 0x80, all line-ending mixes) against std, a sample evaluated in Coq against the models; StreamingLexIterator/SortableStrVec (up to 1300 strings, 2^20-byte strings)/ZoSortedStrVec/unicode/LineProcessor configurations against std; breadth families (c20_wide.rs, oracle only): pre-parsed comparators on every pair of valid bodies up to length 3 x sign flags, numerals of 17..2^20 digits against the padded digit-row order, FastStr conversions / collections / strings of 131..2^20+1 bytes (one and two bytes changed around the powers of two, planted bytes, views), join over arbitrary bytes and item types with one JoinBuilder used repeatedly and lists of 2^16 / 2^20 parts, one LineSplitter over many lines, LineProcessor presets x buffer sizes 0..256 KiB x maximum line length x chunked readers with operation histories on one processor (early stop, failing handler, batches, fields, counting) and line_utils, non-UTF-8 input, StreamingLexIterator histories with refused operations and lines around the reader buffer, sorted lists of 2^16 strings, SortableStrVec histories (14 operations, clone, reserve / shrink_to_fit, SORTABLE_CACHE_BLOCK 0..4, SORTABLE_PREFETCH) and vectors around 512 / 10000 / 2^16 strings, ZoSortedStrVec layouts above 2^16 and 2^20 bits, unicode cursor histories and long texts; extension families (c20_x.rs): model ties for FastStr at every length 0..130 and on the generated pairs (find / order / prefix tests / common prefix / hash value / 28 slicing calls incl. out-of-range and usize::MAX arguments), word-boundary helpers at every position, LineProcessor configurations x batch sizes 0..3, Utf8ToUtf32Iterator histories (all the way forward, all the way back, reset, a mix), StreamingLexIterator histories with refused operations, SortableStrVec push/get, binary_search with cache_block_size 1..4 and 256, ZoSortedStrVec on sorted / unsorted / NUL-containing lists, and the comparison kernel of the release-mode sort against slice order on every generated pair plus two opposite byte changes inside one chunk at every length; corpus of past witnesses first; non-trivial = at least one operand of length >= 2 (or list of >= 2)"),
         shards: CoqShards::new(HEADER, 500),
         budget: if args.thorough { 12000 } else { 1800 },
         emit: true,
